@@ -121,7 +121,18 @@ let history_step name (gs : string -> string) (gi : string -> int) (outs : strin
       let op = if f32 then HScoreF32 (a, z (gi "a"), z (gi "b")) else HScoreU8 (a, z (gi "a"), z (gi "b")) in
       let (post, evs) = step pre op in
       let rows_model = iz (if f32 then post.hFR else post.hUR) in
-      if panicked then (if rows_model <> -7 then bad "implementation-panicked-model-did-not" else [])
+      let drows = if gs "drows" = "" then -7 else gi "drows" in
+      if panicked then begin
+        (* the model panics too; its post-state: the SIMD wrappers leave the score matrix alone, the generic code has
+           already resized it to rows.len() when its checked index panics (pre-state of the scores = observed) *)
+        let pre' = if f32 then { pre with hFR = z drows } else { pre with hUR = z drows } in
+        let (post', evs') = step pre' op in
+        let rows_model' = iz (if f32 then post'.hFR else post'.hUR) in
+        if evs' <> [] then bad "implementation-panicked-model-did-not"
+        else if List.length outs > 1 && drows <> -7 && rows_model' <> oi 1 then
+          bad (Printf.sprintf "rows-after-panic=%d-model=%d(rows-before=%d)" (oi 1) rows_model' drows)
+        else []
+      end
       else if rows_model = -7 then bad "model-panics-implementation-did-not"
       else if rows_model <> oi 0 then bad (Printf.sprintf "rows=%d-model=%d" (oi 0) rows_model)
       else if not (events_ok evs) then bad "event-fails-check_C06"
@@ -167,7 +178,8 @@ let handle_record (r : string) : issue list =
       let gi k = try int_of_string (List.assoc k f) with _ -> 0 in
       let outs = split ',' out in
       let oi k = try int_of_string (List.nth outs k) with _ -> -1 in
-      let panicked = (out = "P") in
+      (* a panicking scoring call prints `P,<rows>,<capacity>` of the score matrix as the unwinding call left it *)
+      let panicked = (out = "P") || (String.length out > 1 && String.sub out 0 2 = "P,") in
       let issues = ref [] in
       let add i = issues := !issues @ i in
       let stride_check what got es c =
@@ -505,7 +517,10 @@ let () =
         else if guards <> [] then
           Printf.printf "%s DIFF %s\n" id (List.hd guards)
         else if model_bad <> [] then
-          Printf.printf "%s OK note=model-access-outside-owned-rows-but-inside-capacity(invisible-to-ASan):%s\n" id (fst (List.hd model_bad))
+          (* the proven-sound check_C06 rejected an access of the MODEL's footprint on the parameters the kernel was
+             entered with (inside the observed capacity): by the theorems of C06.v this cannot happen for the kernel
+             and extents the guards admit, so the driver picked another kernel / extent than the code: broken tie *)
+          Printf.printf "%s DIFF model-access-outside-owned-rows:%s\n" id (fst (List.hd model_bad))
         else
           Printf.printf "%s OK\n" id
       end
